@@ -919,6 +919,59 @@ impl Gen {
                 );
                 true
             }
+            29 => {
+                // a closure stored in a vector slot, then called through the slot
+                let Some((path, id, mut roots)) = self.vec_path() else { return false };
+                if !self.m.vectors[id].mutable || self.m.vectors[id].items.is_empty() {
+                    return false;
+                }
+                let slots: Vec<usize> = self.m.vectors[id]
+                    .items
+                    .iter()
+                    .enumerate()
+                    .filter(|(_, x)| matches!(x, RV::Closure(c) if c.params.is_empty() && c.rest.is_none()))
+                    .map(|(i, _)| i)
+                    .collect();
+                if !slots.is_empty() && self.rng.chance(2, 3) {
+                    let i = *self.rng.pick(&slots) as i64;
+                    self.emit(
+                        list(vec![call("vector-ref", vec![path, int(i)])]),
+                        "call-closure-in-vector",
+                        roots,
+                        true,
+                    );
+                    return true;
+                }
+                let Some(cn) = self.pick_name(Role::Counter) else { return false };
+                let i = self.rng.upto(self.m.vectors[id].items.len()) as i64;
+                roots.push(cn.clone());
+                self.emit(
+                    call("vector-set!", vec![path, int(i), sym(&cn)]),
+                    "store-closure-in-vector",
+                    roots,
+                    true,
+                );
+                true
+            }
+            30 => {
+                // a list of existing counters: the same closures under new paths
+                let cs = self.names_with(Role::Counter);
+                if cs.len() < 2 || self.names_with(Role::CounterList).len() >= 3 {
+                    return false;
+                }
+                let mut sx = quote(list(vec![]));
+                let mut roots = vec![];
+                for _ in 0..self.rng.range(2, 3) {
+                    let c = self.rng.pick(&cs).clone();
+                    roots.push(c.clone());
+                    sx = call("cons", vec![sym(&c), sx]);
+                }
+                let name = self.fresh("cl");
+                self.roles.insert(name.clone(), Role::CounterList);
+                roots.push(name.clone());
+                self.emit(list(vec![sym("define"), sym(&name), sx]), "mk-list-of-counters", roots, false);
+                true
+            }
             _ => false,
         }
     }
@@ -1372,7 +1425,7 @@ pub fn generate_a(seed: u64, quick: bool, faults: bool) -> Value {
     let hash_seed = rng.next_u64() | 1;
     // swarm configuration
     let steps = if quick { rng.range(10, 40) } else { rng.range(10, 60) } as usize;
-    let nops = 29;
+    let nops = 31;
     let mut weights: Vec<u32> = (0..nops).map(|_| if rng.chance(1, 4) { 0 } else { rng.range(1, 6) as u32 }).collect();
     if weights.iter().all(|w| *w == 0) {
         weights[0] = 1;
